@@ -208,7 +208,7 @@ Proof. vm_compute. repeat split; reflexivity. Qed.
 (* ---------------------------------------------------------------------------------------------------------------
    The shape clause for the evaluators that were only decided per explored case (Proofs/Shape3_proofs.v,
    Proofs/ShapeElim_proofs.v, Proofs/TidemanIndex_proofs.v). *)
-From VL Require Model.Threshold Model.Hybrids Model.Elimination Model.AllocScore Model.Quota Proofs.AllocScore_proofs Proofs.Hybrids_proofs Proofs.Shape3_proofs Proofs.ShapeElim_proofs
+From VL Require Model.Threshold Model.Hybrids Model.Elimination Model.ApprovalSimple Model.AllocScore Model.Quota Proofs.AllocScore_proofs Proofs.Hybrids_proofs Proofs.Shape3_proofs Proofs.ShapeElim_proofs
      Proofs.TidemanIndex_proofs.
 
 (* seatless selectors (thresholds, bracketers, Condorcet winner, Smith / Schwartz set): the right shape is a duplicate-free
@@ -343,6 +343,13 @@ Proof.
   exists d. split; [exact E|apply Shape2_proofs.nform_shape, Hf].
 Qed.
 
+(* approval voting and satisfaction approval voting (ApprovalToSimpleVotes, plain or split, in front of plurality;
+   Model/ApprovalSimple.v): every approval profile, every 1 <= n <= candidates approved by somebody *)
+Theorem C08_shape_approval : forall (split : bool) (votes : list (list C * Q)) (n : nat),
+  (1 <= n <= length (Shape2_proofs.approval_cands votes))%nat ->
+  sel_shape (Shape2_proofs.approval_cands votes) n (ApprovalSimple.approval_plurality split votes n).
+Proof. intros split votes n Hn. apply Shape2_proofs.nform_shape, Shape3_proofs.approval_plurality_nform, Hn. Qed.
+
 (* allocated score: the shape clause is false of the faithful model (Model/AllocScore.v) - three candidates level for two
    seats come back as ONE tie entry (known finding C08-allocated-score-shape; the witness of C12_alloc_tie_shape_refuted) *)
 Theorem C08_shape_allocated_score_refuted : exists (votes : AllocScore.wprofile) (r : list (res C)),
@@ -405,3 +412,4 @@ Print Assumptions C08_shape_tideman_multiseat_refuted.
 Print Assumptions C08_shape_baldwin.
 Print Assumptions C08_shape_positional.
 Print Assumptions C08_shape_allocated_score_refuted.
+Print Assumptions C08_shape_approval.
